@@ -218,5 +218,11 @@ def span_s():
         st.builds(lambda a, b: {"op": "span_not", "a": a, "b": b}, st.one_of(t, basic), t),
         st.builds(lambda a, b: {"op": "span_contains", "a": a, "b": b}, basic, t),
         st.builds(lambda q, l: {"op": "span_first", "q": q, "limit": l}, basic, st.integers(0, 3)),
+        # a wrapper around a union, one side of which runs out early: replace() then re-wraps the surviving side
+        st.builds(lambda a, b, l, so: {"op": "span_first", "limit": l,
+                                       "q": ({"op": "span_or", "qs": [a, b]} if so else
+                                             {"op": "or", "qs": [a, b], "boost": 1.0})},
+                  t, st.builds(lambda x: {"op": "term", "f": "t", "x": x, "boost": 1.0}, word_s), st.integers(1, 3),
+                  st.booleans()),
     )
     return st.one_of(basic, basic, nested)
